@@ -25,9 +25,10 @@
 //!     equivariant under rotation of the boundary curve, whose direction is set by the first loop vertex).
 //! (c) REJECTION, every call on a helper thread under a watchdog: closed box, closed tetrahedron, annulus (2 boundaries),
 //!     disk with two holes, two separate disks, a fin (edge in three faces: `calc_edges` already refuses), single-boundary
-//!     inputs that are not disks (disk + separate closed box; torus with one hole), two disks sharing ONE vertex (D7: the
-//!     boundary successor map is not a bijection there).  Each: `calc_edges()?.boundary_first_flatten()` returns, and
-//!     returns Err.
+//!     inputs that are not disks (disk + separate closed box; torus with one hole).  Each: the call
+//!     `calc_edges()?.boundary_first_flatten()` returns, does not panic, and returns Err.  LAST of the whole run (2 s
+//!     watchdog): two triangles sharing ONE vertex (D7: the boundary successor map is not a bijection there and
+//!     `boundary_loops` never returns on the unchanged tree; the stuck thread dies with the process).
 //! (d) UV ROUND TRIP: Mesh::new_with_uv with (i) the flattening result of planar and curved disks, (ii) hand-made UV
 //!     maps (sheared / scaled copies of a parameter plane).  For every face f and 10 barycentric weights (interior, on
 //!     edges, at vertices): uv = UvMapping::point(f, w) is the w-combination of the face's UV corners; uv_to_3d(uv) is the
@@ -444,10 +445,22 @@ fn rejection(r: &mut Report) {
     check_rejected(r, "[single boundary loop, not a disk: disk + separate closed box] ", "3x3 grid disk and a separate closed box", v, f);
     let (tv, tf) = torus_with_hole(6, 5);
     check_rejected(r, "[single boundary loop, not a disk: torus with one face removed] ", "torus 6x5 quads, one triangle removed (genus 1, one boundary)", tv, tf);
-    // two disks sharing one vertex (D7)
-    check_rejected(r, "[D7 vertex-only contact] ", "two triangles sharing only vertex 0", vec![p3(0.0, 0.0, 0.0), p3(1.0, 0.0, 0.0), p3(0.0, 1.0, 0.0), p3(-1.0, 0.0, 0.0), p3(0.0, -1.0, 0.0)], vec![[0, 1, 2], [0, 3, 4]]);
-    let bow = grid("two 2x2 blocks sharing a corner vertex", 4, 4, 0.0, Diag::Slash, 16, &|i, j| (i < 2 && j < 2) || (i >= 2 && j >= 2));
-    check_rejected(r, "[D7 vertex-only contact] ", &bow.name, flat3(&bow), bow.faces.clone());
+}
+
+/// LAST clause of the run (own name).  Two disks sharing ONE vertex: the boundary successor map built by identify_edges is
+/// not a bijection there and `boundary_loops` never returns (C12, D7: `working` grows without bound).  The call is made on a
+/// helper thread, the watchdog waits 2 s (the call takes microseconds when it returns) and the process exits right after
+/// the report is printed, so the abandoned thread cannot exhaust memory.
+fn rejection_vertex_contact(r: &mut Report) {
+    r.case();
+    let (verts, faces) = (vec![p3(0.0, 0.0, 0.0), p3(1.0, 0.0, 0.0), p3(0.0, 1.0, 0.0), p3(-1.0, 0.0, 0.0), p3(0.0, -1.0, 0.0)], vec![[0u32, 1, 2], [0, 3, 4]]);
+    let d = || "two triangles sharing only vertex 0: vertices (0,0,0),(1,0,0),(0,1,0),(-1,0,0),(0,-1,0), faces [[0,1,2],[0,3,4]]".to_string();
+    let got = flatten_guarded(verts, faces, 2);
+    r.check(!matches!(got, Guarded::TimedOut), "[D7 vertex-only contact] rejection terminates (watchdog 2 s)", d);
+    r.check(!matches!(got, Guarded::Panicked), "[D7 vertex-only contact] rejection is an Err, not a panic", d);
+    if let Guarded::Answer(g) = got {
+        r.check(g.is_err(), "[D7 vertex-only contact] a mesh that is not a single-boundary disk is rejected with Err", || format!("{}: returned Ok with {} positions", d(), g.clone().unwrap_or(0)));
+    }
 }
 
 fn torus_with_hole(nu: usize, nv: usize) -> (Vec<Point3>, Vec<[u32; 3]>) {
@@ -536,7 +549,7 @@ fn check_uv(r: &mut Report, w: &mut Worst, name: &str, verts: &[Point3], faces: 
 
 // ------------------------------------------------------------------------------------------------ driver
 pub fn run() -> Option<Report> {
-    let mut r = Report::new("TESTING-GRADE (no clause here is deduction). Planar disks: jittered grids (jitter <= 0.2 pitch; diagonals fixed / alternating / LCG / locally Delaunay) 3x3, 6x5, 15x15 (256 vertices) [thorough: 30x30], L 6x6 and 12x10, U 9x6, plus 9x9, polar fan 7, polar 3x10 and 6x16 round and star, [thorough: 10x40], strips 2x2..2x12 / single triangle / two-triangle square (no inner vertex), each in 3 vertex numberings x 2 face storages x CCW/CW (small meshes all combinations, large ones a fixed subset), scales 1, 1e-3, 1e3, 5 poses (translations up to 2e3, any rotation): Ok, one finite position per vertex, every edge length and triangle area kept to relative 2e-5 / 8e-5, every triangle positively oriented, result = input shape under ONE proper planar rigid motion (residual <= 1e-5 diameter), boundary loop stored from 2..3 different start vertices per variant and once as calc_edges leaves it. Curved disks (spherical caps of half angle 0.5 and 1.2 rad, saddle, half cylinder on jittered grids and polar meshes, up to 256 vertices): 4 poses, a repeated call, scale 0.125 and 1000: result unchanged up to a proper planar rigid motion (and the scale) within 1e-9 diameter for the same stored boundary loop, 2e-5 for a loop stored from another start vertex. A planar disk with one zero-area face (own clause). Rejection under a 4 s watchdog: closed box / tetrahedron, annulus, two holes, two separate disks, two fins, disk + closed box, torus with a hole, two vertex-only contacts. UV round trip: flattening results of 4 planar and 3 curved disks and 2 hand-made sheared UV maps, every face x 10 weights (4 interior, 3 edge, 3 vertex): point / uv_to_3d / uv_with_tol to 1e-9 of the size");
+    let mut r = Report::new("TESTING-GRADE (no clause here is deduction). Planar disks: jittered grids (jitter <= 0.2 pitch; diagonals fixed / alternating / LCG / locally Delaunay) 3x3, 6x5, 15x15 (256 vertices) [thorough: 30x30], L 6x6 and 12x10, U 9x6, plus 9x9, polar fan 7, polar 3x10 and 6x16 round and star, [thorough: 10x40], strips 2x2..2x12 / single triangle / two-triangle square (no inner vertex), each in 3 vertex numberings x 2 face storages x CCW/CW (small meshes all combinations, large ones a fixed subset), scales 1, 1e-3, 1e3, 5 poses (translations up to 2e3, any rotation): Ok, one finite position per vertex, every edge length and triangle area kept to relative 2e-5 / 8e-5, every triangle positively oriented, result = input shape under ONE proper planar rigid motion (residual <= 1e-5 diameter), boundary loop stored from 2..3 different start vertices per variant and once as calc_edges leaves it. Curved disks (spherical caps of half angle 0.5 and 1.2 rad, saddle, half cylinder on jittered grids and polar meshes, up to 256 vertices): 4 poses, a repeated call, scale 0.125 and 1000: result unchanged up to a proper planar rigid motion (and the scale) within 1e-9 diameter for the same stored boundary loop, 2e-5 for a loop stored from another start vertex. A planar disk with one zero-area face (own clause). Rejection under a 4 s watchdog: closed box / tetrahedron, annulus, two holes, two separate disks, two fins, disk + closed box, torus with a hole; last, under a 2 s watchdog, two triangles sharing only a vertex. UV round trip: flattening results of 4 planar and 3 curved disks and 2 hand-made sheared UV maps, every face x 10 weights (4 interior, 3 edge, 3 vertex): point / uv_to_3d / uv_with_tol to 1e-9 of the size");
     let verbose = std::env::var("VERIF_C20_VERBOSE").is_ok();
     let big = thorough();
     let mut w = Worst { len: 0.0, area: 0.0, fit: 0.0, inv: 0.0, start: 0.0, rt: 0.0 };
@@ -667,6 +680,9 @@ pub fn run() -> Option<Report> {
     let c4 = &cs[4];
     uv_samples.push((format!("hand-made sheared UV on {}", c4.name), c4.verts.clone(), c4.faces.clone(), pol.pts.iter().map(shear).collect()));
     for (name, verts, faces, uv) in uv_samples.iter() { check_uv(&mut r, &mut w, name, verts, faces, uv); }
+
+    // ---------------------------------------------------------------- (c') the input on which the unchanged code never returns: LAST
+    rejection_vertex_contact(&mut r);
 
     if verbose {
         eprintln!("C20 bounded: worst relative edge error {:.3e}, area error {:.3e}, rigid fit {:.3e}, invariance {:.3e}, start-vertex dependence {:.3e}, round trip {:.3e}; uv samples {}", w.len, w.area, w.fit, w.inv, w.start, w.rt, uv_samples.len());
